@@ -120,10 +120,16 @@ func chClass(c byte) string {
 // forEachFull enumerates every single-character substitution over mutAlpha, every
 // truncation (prefixes and suffixes) and every one-character insertion (incl. prepend
 // and append) of c. The byte slice handed to fn is reused between calls.
-func forEachFull(c string, fn func(kind string, s []byte)) {
+//
+// part/parts split the enumeration by position (i % parts == part) so that a long
+// ciphertext can be spread over several work items; parts=1 enumerates everything.
+func forEachFull(c string, part, parts int, fn func(kind string, s []byte)) {
 	L := len(c)
 	buf := make([]byte, 0, L+1)
 	for i := 0; i < L; i++ {
+		if i%parts != part {
+			continue
+		}
 		for j := 0; j < len(mutAlpha); j++ {
 			ch := mutAlpha[j]
 			if ch == c[i] {
@@ -135,14 +141,23 @@ func forEachFull(c string, fn func(kind string, s []byte)) {
 		}
 	}
 	for i := 0; i < L; i++ {
+		if i%parts != part {
+			continue
+		}
 		buf = append(buf[:0], c[:i]...)
 		fn("trunc-tail", buf)
 	}
 	for i := 1; i < L; i++ {
+		if i%parts != part {
+			continue
+		}
 		buf = append(buf[:0], c[i:]...)
 		fn("trunc-head", buf)
 	}
 	for i := 0; i <= L; i++ {
+		if i%parts != part {
+			continue
+		}
 		kind := "ext-insert-"
 		if i == 0 {
 			kind = "ext-prepend-"
